@@ -7,10 +7,12 @@ package rpcv9
 //@ opaque type github.com/NethermindEth/juno/core/felt.Felt
 
 //@ ghost func errIs(err error, target error) bool
+//@ ghost func isNotFound(e error) bool
 //@ extern func errors.Is
 //@   ensures result == errIs(err, target)
 //@   ensures err == target && err != nil ==> result
 //@   ensures err == nil && target != nil ==> !result
+//@   ensures target == db.ErrKeyNotFound ==> result == isNotFound(err)
 
 // ---- the chain reader: assumed contracts that record what was asked and answered -------
 //@ ghost var lastErr error
@@ -121,3 +123,42 @@ package rpcv9
 //@   modifies *
 //@   callsite TransactionExecutionStatusByBlockNumberAndIndex@*: what_the_hash_index_named: $1 == blockNumber && $2 == index
 //@   callsite newTransactionStatus@1: finality_by_the_rule: $0 == ite(l1Rule(blockNumber, l1H), TxnStatusAcceptedOnL1, TxnStatusAcceptedOnL2)
+
+// ---- storage proofs: the leaf data of every contract that exists (C10) ------------------------------
+// A storage proof is checked against the global state root through the contract's leaf
+// H(H(H(class_hash, storage_root), nonce), 0): the answer carries one entry per requested contract, in
+// request order, and an entry is missing ONLY for a contract the state does not know (the class-hash
+// lookup says not found) - whatever the class hash is (the system contracts 0x1 and 0x2 exist with
+// class hash zero).
+//@ ghost func unknownContract(addr felt.Felt) bool
+//@ extern func github.com/NethermindEth/juno/core.StateReader.ContractClassHash
+//@   ensures result1 == nil ==> !unknownContract(*addr)
+//@   ensures result1 != nil && isNotFound(result1) ==> unknownContract(*addr)
+//@ extern func github.com/NethermindEth/juno/core.StateReader.ContractNonce
+//@ extern func github.com/NethermindEth/juno/core.StateReader.ContractStorageTrie
+//@ extern func github.com/NethermindEth/juno/core.TrieReader.Hash
+//@ extern func github.com/NethermindEth/juno/core/felt.(*Felt).IsZero
+//@ func buildContractLeavesData
+//@   props C10
+//@   arith int
+//@   nosafe
+//@   loop 1: invariant one_entry_per_known_contract: len(contractLeavesData) == len(contracts) && fresh(contractLeavesData) && -1 <= rangeindex && rangeindex < len(contracts) && (forall j int :: 0 <= j && j <= rangeindex && contractLeavesData[j] == nil ==> unknownContract(contracts[j]))
+//@   ensures one_entry_per_known_contract: result1 == nil ==> len(result0) == len(contracts) && (forall j int :: 0 <= j && j < len(contracts) && result0[j] == nil ==> unknownContract(contracts[j]))
+
+// ---- storage proofs are answered in the order of the request (C10) ----------------------------------
+// The client matches contracts_storage_proofs[i] with the i-th contract it asked for. The request is
+// de-duplicated through a map; what is handed on is built by walking the REQUEST (never the map, whose
+// iteration order is random - defect F24, fixed): the k-th entry handed on is a contract of the
+// request, and entries appear in the order of their first occurrence in it.
+//@ extern func github.com/NethermindEth/juno/utils.Set
+//@ extern func github.com/NethermindEth/juno/jsonrpc.Err
+//@   ensures result != nil
+//@ func processStorageKeys
+//@   props C10
+//@   arith int
+//@   nosafe
+//@   coretypes
+//@   modifies *
+//@   loop 2: invariant walks_the_request: -1 <= rangeindex && rangeindex < len(storageKeys) && len(uniqueStorageKeys) <= rangeindex + 1 && fresh(uniqueStorageKeys)
+//@   ensures at_most_one_entry_per_requested_contract: result1 == nil ==> len(result0) <= len(storageKeys)
+//@   ensures an_empty_request_has_no_entries: len(storageKeys) == 0 ==> len(result0) == 0 && result1 == nil
